@@ -67,7 +67,7 @@ def rstream(rng, g, savable):
         elif r < 0.7:
             length = REF(rng.choice([1, 2, 3, 99]), 0)
         elif r < 0.8:
-            length = rng.choice([NULL, N(b'x'), '(r x%s)' % b'3.0'.hex()])
+            length = rng.choice([NULL, N(b'x'), '(r x%s)' % b'2.5'.hex(), '(r x%s)' % b'3'.hex()])   # real texts must be Rust Display strings
     if length is not None:
         ents.insert(rng.randint(0, len(ents)), (b'Length', length))
     if rng.random() < 0.3:
